@@ -59,6 +59,10 @@ def scalar_cases():
     for tz in offsets():
         out.append((datetime.datetime, datetime.datetime(2020, 1, 2, 3, 4, 5, 6, tzinfo=tz)))
         out.append((datetime.datetime, datetime.datetime(1999, 12, 31, 23, 59, 59, 999999, tzinfo=tz, fold=1)))
+        # far from the epoch a float timestamp no longer carries microseconds: field-wise handling must
+        out.append((datetime.datetime, datetime.datetime(2500, 6, 1, 12, 0, 0, 1, tzinfo=tz)))
+        out.append((datetime.datetime, datetime.datetime(3000, 1, 1, 0, 0, 0, 999999, tzinfo=tz)))
+        out.append((datetime.datetime, datetime.datetime(1000, 1, 1, 0, 0, 0, 1, tzinfo=tz)))
         out.append((datetime.time, datetime.time(1, 2, 3, 4, tzinfo=tz)))
         out.append((datetime.time, datetime.time(23, 59, 59, 999999, tzinfo=tz)))
     out += [(TD, v) for v in (TD(0), TD(days=7), TD(days=8), TD(days=14, seconds=59, microseconds=999999), TD(seconds=59, microseconds=999999),
